@@ -112,6 +112,38 @@ pub fn translate(repo: &Path, out: &mut Out) {
         j.insert("sbom_table".into(), json!(table));
         j.insert("sbom_formats".into(), json!(formats));
     }
+    // trait API: what the Keep arm of handle_layer does, and the shape facts of the other arms
+    match parse_file(&repo.join("libcnb/src/layer/trait_api/handling.rs")) {
+        Some(file) => match find_free_fn(&file, "handle_layer") {
+            Some(f) => {
+                let b = squash(&f.block);
+                let keep_start = b.find("ExistingLayerStrategy::Keep=>{");
+                let keep_arm = keep_start.map(|i| {
+                    let rest = &b[i..];
+                    let end = rest.find("Err(ReadLayerError::LayerContentMetadataParseError(_))=>").unwrap_or(rest.len());
+                    rest[..end].to_string()
+                });
+                match keep_arm {
+                    Some(arm) => {
+                        let only_types = arm.contains("replace_layer_types(&context.layers_dir,&layer_data.name,layer.types())") && !arm.contains("write_layer(");
+                        let rereads = arm.contains("read_layer(&context.layers_dir,&layer_name)");
+                        let _ = writeln!(v, "Definition trait_keep_refreshes_only : bool := {only_types}.");
+                        let _ = writeln!(v, "Definition trait_keep_rereads : bool := {rereads}.");
+                    }
+                    None => out.miss("trait_api/handling.rs: Keep arm of handle_layer"),
+                }
+                let recreate = b.contains("ExistingLayerStrategy::Recreate=>{delete_layer(&context.layers_dir,&layer_name)")
+                    && b.contains("handle_create_layer(context,&layer_name,&mutlayer)");
+                let update = b.contains("ExistingLayerStrategy::Update=>{handle_update_layer(context,&layer_data,&mutlayer)}");
+                let migrate = b.contains("MetadataMigration::RecreateLayer=>{delete_layer(&context.layers_dir,&layer_name)")
+                    && b.contains("MetadataMigration::ReplaceMetadata(migrated_metadata)=>{write_layer(&context.layers_dir,&layer_name,&generic_layer_data.env,&LayerContentMetadata{types:generic_layer_data.content_metadata.types,metadata:migrated_metadata,},ExecDPrograms::Keep,Sboms::Keep,)")
+                    && b.contains("handle_layer(context,layer_name,layer)");
+                let _ = writeln!(v, "Definition trait_dispatch_shape_ok : bool := {}.", recreate && update && migrate);
+            }
+            None => out.miss("trait_api/handling.rs: fn handle_layer"),
+        },
+        None => out.miss("trait_api/handling.rs: cannot parse"),
+    }
     out.coq("GenLayerShared.v").push_str(&v);
     out.json.insert("layer_shared".into(), serde_json::Value::Object(j));
 }
